@@ -36,6 +36,7 @@ impl MapUniverse {
             stream: self.stream,
             jitter: 0,
             repeat: self.repeat,
+            stream_style: 0,
         }
     }
 
@@ -161,6 +162,22 @@ pub fn motif_universes(cfgs: &[ModeCfg], mlen: u32, reps: u32, wide: bool) -> Ve
             };
             let total = alpha.count_upto(mlen) - 1;
             MotifUniverse { name: format!("motif/{}to{}/len<={mlen}-x{reps}/|A|={}", cfg.src, cfg.dst, alpha.len()), cfg: *cfg, alpha, mlen, reps, total }
+        })
+        .collect()
+}
+
+/// Rhythm universes: circle-only (mania: note / hold) motifs of `1..=mlen` objects over gaps {75, 300, 1600} ms — ratios of
+/// more than 16x between consecutive intervals, pauses followed by bursts — repeated `reps` times.
+pub fn rhythm_universes(cfgs: &[ModeCfg], mlen: u32, reps: u32) -> Vec<MotifUniverse> {
+    cfgs.iter()
+        .map(|cfg| {
+            let alpha = if cfg.src == 3 {
+                Alphabet::product(&[Kind::Circle, Kind::Hold(100)], &[75, 300, 1600], &[PosK::Same], &[0], &[0, 1])
+            } else {
+                Alphabet::product(&[Kind::Circle], &[75, 300, 1600], &[PosK::Far], &[0, 8], &[0])
+            };
+            let total = alpha.count_upto(mlen) - 1;
+            MotifUniverse { name: format!("rhythm/{}to{}/len<={mlen}-x{reps}/|A|={}", cfg.src, cfg.dst, alpha.len()), cfg: *cfg, alpha, mlen, reps, total }
         })
         .collect()
 }
